@@ -515,8 +515,11 @@ Section Elem.
                     | None => (RPanic "a2ml oracle: text not in the table", s)
                     end) ;;;
           expect_token newc TEnd ;;;
+          (* the line breaks of the A2ML text are written with the text: they are not part of the offset of /end *)
+          eo <-- get_line_offset ;;
           end_tag_check newc (bytes_of "A2ML") ;;;
-          ret (VNode "A2ml" (mkLay uid (c_line newc) line_offset 1 inc) [VScalar (SText (crlf_to_lf (tk_text token))) loc] [] [])
+          ret (VNode "A2ml" (mkLay uid (c_line newc) line_offset (eo - count_newlines (tk_text token)) inc)
+                     [VScalar (SText (crlf_to_lf (tk_text token))) loc] [] [])
         else
           inc <-- get_incfilename (c_fileid newc) ;;
           uid <-- get_next_id ;;
